@@ -152,7 +152,17 @@ pub fn pair(o: Opt) -> BoxedStrategy<(String, String)> {
 				sb.insert(0, y.to_string());
 			}
 			let scheme_b = if sd == 0 { s2 } else { s1.clone() };
-			let auth_b = if ad == 0 { a2 } else { a1.clone() };
+			let mut auth_b = if ad == 0 { a2 } else { a1.clone() };
+			// 20 %: b's authority is a CONFUSABLE spelling of a's: a delimiter percent-encoded ("u%40h" for "u@h",
+			// "h%3A80" for "h:80" - a different authority), or an escape respelled (the same authority)
+			if ad == 1 || ad == 2 {
+				if let Some(x) = &a1 {
+					let mut cur = Parts { scheme: None, authority: Some(x.clone()), path: String::new(), query: None, fragment: None };
+					let v = if ad == 1 { gen::Variant::EncodeDelimiter(sd.wrapping_add(absd)) } else { gen::Variant::HexCase(sd as u16) };
+					cur = gen::apply_variant(&cur, &v);
+					auth_b = cur.authority;
+				}
+			}
 			let abs_b = if absd == 0 { !abs } else { abs };
 			let mut pa = stem.clone();
 			pa.extend(sa);
@@ -266,11 +276,11 @@ impl Prop for C15 {
 	fn floors(_tier: Tier) -> Vec<(&'static str, u64)> {
 		vec![
 			("judged", 200_000),
-			("rel:same-path", 5_000),
+			("rel:same-path", 3_000),
 			("rel:a-below-b-directory", 20_000),
 			("rel:a-above-b-directory", 5_000),
 			("rel:a-beside-b", 20_000),
-			("rel:a-is-b-directory", 2_000),
+			("rel:a-is-b-directory", 1_000),
 			("rel:a-path-empty", 1_000),
 			("rel:b-path-empty", 1_000),
 			("a-has-query-or-fragment", 50_000),
